@@ -14,6 +14,10 @@
   flush timeout a burst of lines (the first one is time-flushed alone as a short batch and waits in the batch channel
   while the batcher appends its successors), twice; only after stdin is closed is stdout read.  Every output line must
   be `<stdin> <k>: <line k>`.
+* several files through ONE worker (`many_sources`, round 4d): `rare filter --workers 1 --readers 1 -m '(\w+)=(\d+)'
+  -e '{src}:{line}:{@}' f1 f2 …` over one-line files and short files whose matching lines carry the same line numbers.
+  The worker's expression context is one object for all files and line numbers restart in every file; every output
+  line must carry the groups of ITS line, as the model's `ctxhist` op (context-free `captureOf` per line) gives them.
 """
 import os, subprocess, sys, time
 sys.path.insert(0, os.path.dirname(__file__))
@@ -138,6 +142,10 @@ def run_extra(ctx):
     runs += r
     for x in v:
         viol(x.pop("key"), **x)
+    r, v = many_sources(exe, rnd, ctx)
+    runs += r
+    for x in v:
+        viol(x.pop("key"), **x)
     return {"runs": runs, "violations": violations,
             "assumptions": ["e2e step: one reader and one worker (input order is then a theorem, fifo_order); index lists of the "
                             "real matchers are taken from the harness binary (op idx)"]}
@@ -185,6 +193,55 @@ def stdin_timeflush(exe, rnd, tier):
                         "want": (w[k][:40].decode(errors="replace") if k < len(w) else None),
                         "input": "%d lines of %d bytes at once, pause 0.4 s, burst of %d lines, pause 0.4 s, burst of %d lines; stdout read after stdin was closed"
                                  % (len(first), width, len(bursts[0]), len(bursts[1]))})
+    return runs, out
+
+
+def many_sources(exe, rnd, ctx):
+    """see the module comment; returns (runs, violations)"""
+    runs, out = 0, []
+    pat = r"(\w+)=(\d+)"
+    d = os.path.join(ctx["work"], "e2e_sources")
+    os.makedirs(d, exist_ok=True)
+    words = ["alpha", "beta", "gamma", "x", "y_2", "Zq"]
+    for rep in range(2 if ctx["tier"] == "quick" else 12):
+        files = []
+        shape = rep % 2      # 0: one-line files; 1: short files, matching lines at the same numbers, noise between
+        for k in range(3 + rnd.intn(4)):
+            if shape == 0:
+                lines = ["%s=%d" % (rnd.pick(words), rnd.intn(100))]
+            else:
+                lines = [("%s=%d" % (rnd.pick(words), rnd.intn(100))) if (i % 2 == 0 or rnd.intn(4) == 0) else rnd.pick(["noise", "", "a = 1"])
+                         for i in range(1 + rnd.intn(5))]
+            path = os.path.join(d, "s%d_%d.log" % (rep, k))
+            with open(path, "w") as f:
+                f.write("".join(l + "\n" for l in lines))
+            files.append((path, lines))
+        seq = "+".join("%s/%d/%s" % (hx(path.encode()), n, hx(l.encode())) for path, lines in files for n, l in enumerate(lines, start=1))
+        model = lines_through([ctx["driver"]], "C02 ctxhist 0 1000 %s %s %s\n" % (hx(pat.encode()), ";".join(hx(k) for k in (b"src", b"line", b"@")), seq))
+        if len(model) != 1 or not model[0].startswith("ok read="):
+            out.append({"key": "e2e-many-sources-model", "answer": model[:1]})
+            continue
+        body = model[0].split("matches=", 1)[1]
+        want = b""
+        for row in ([] if body == "." else body.split("+")):
+            src, num, _line, _ix, ext = row.split("/")
+            src, ext = bytes.fromhex(src), bytes.fromhex(ext)
+            pre = src + b"|" + num.encode() + b"|"
+            if not ext.startswith(pre):
+                out.append({"key": "e2e-many-sources-model", "answer": row})
+                continue
+            want += src + b":" + num.encode() + b":" + ext[len(pre):] + b"\n"
+        batch = rnd.pick(["1", "3", "1000"])
+        p = subprocess.run([exe, "--nocolor", "filter", "--workers", "1", "--readers", "1", "--batch", batch, "-m", pat, "-e", "{src}:{line}:{@}"]
+                           + [f[0] for f in files], stdout=subprocess.PIPE, stderr=subprocess.PIPE, timeout=120)
+        runs += 1
+        if p.stdout != want:
+            g, w = p.stdout.split(b"\n"), want.split(b"\n")
+            k = next((i for i in range(min(len(g), len(w))) if g[i] != w[i]), min(len(g), len(w)))
+            out.append({"key": "e2e-many-sources-one-context", "pattern": pat, "expression": "{src}:{line}:{@}", "batch": batch,
+                        "files": [{"name": os.path.basename(f[0]), "lines": f[1]} for f in files], "first_diff_output_line": k + 1,
+                        "got": (g[k].decode(errors="replace") if k < len(g) else None),
+                        "want": (w[k].decode(errors="replace") if k < len(w) else None)})
     return runs, out
 
 
